@@ -57,10 +57,6 @@ func vStubWriteChunk(w http.ResponseWriter, chk chunk) error {
 
 func vStubUnixMS() int { return 0 }
 
-func vStubLoadInit(rep *RepData) {
-	rep.initSeg = &mp4.InitSegment{Moov: &mp4.MoovBox{Mvex: &mp4.MvexBox{Trex: &mp4.TrexBox{}}, Trak: &mp4.TrakBox{Tkhd: &mp4.TkhdBox{TrackID: 1}}}}
-}
-
 // media span (ticks) of every chunk written, in order
 func vStubWrittenSpans(w *vRW2) []int { return vSpans }
 
